@@ -238,6 +238,13 @@ func MakeContent(r *rand.Rand, o ContentOpts) Content {
 	return c
 }
 
+// LongIdentityBlock is an honest identity block whose CID is longer than the default
+// MaxIndexCidSize (2 KiB): legal in a payload, only index generation refuses it.
+func LongIdentityBlock(r *rand.Rand) refcar.Block {
+	d := Bytes(r, 2049+r.Intn(3000))
+	return refcar.Block{Cid: refcar.MakeCidV1(0x55, 0x00, d), Data: append([]byte{}, d...)}
+}
+
 // U64 little-endian helper for descriptors.
 func U64(v uint64) []byte { return binary.LittleEndian.AppendUint64(nil, v) }
 
